@@ -294,7 +294,8 @@ CallV(f, e, s, st, deferred) ==
            preMismatch == IF ~e.spread THEN (~va /\ n # np) \/ (va /\ n < np - 1)
                           ELSE IF va THEN n # np /\ n # np - 1
                           ELSE n > np \/ n = 0 IN
-       IF preMismatch THEN Thr(MarkOpen(st), RtErrV("arity"))    \* rejected for arity; whether operands ran is left open
+       IF preMismatch THEN Thr(IF \A j \in 1..n : e.args[j].k \in {"int", "str", "bool", "nil", "flt"} THEN st ELSE MarkOpen(st), RtErrV("arity"))
+                                                                 \* rejected for arity: decided; whether operands that can be observed ran is left open
        ELSE IF e.spread /\ va /\ n = np - 1 THEN Thr(MarkOpen(st), RtErrV("open"))   \* spread list covering a fixed parameter too: open
        ELSE LET a == EvalSeq(e.args, 1, s, st, <<>>) IN
             IF a.o # "norm" THEN a
